@@ -559,3 +559,223 @@ Proof.
   - reflexivity.
   - pose proof (pchain_long_forever fuel) as Hf. rewrite Hp in Hf. discriminate.
 Qed.
+
+(* ================================================================== the client-decoder leg *)
+
+Definition response_of_page (p : page) : response :=
+  {| rs_sub := c_sub code; rs_code := pg_code p; rs_conformity := c_conformity code;
+     rs_more := pg_more p; rs_next := pg_next p; rs_count := Z.of_nat (length (pg_objs p));
+     rs_info := map (fun o => (fst o, VOne (snd o))) (pg_objs p) |}.
+
+Lemma pack_bytes_inv vs : forall b,
+  pack_bytes vs = Ok b -> b = map Z.to_N vs /\ Forall (fun v => 0 <= v < 256) vs.
+Proof.
+  induction vs as [|v t IH]; intros b H; cbn [pack_bytes] in H.
+  - inversion H. split; [reflexivity|constructor].
+  - destruct ((0 <=? v) && (v <? 256)) eqn:E; [|discriminate].
+    destruct (pack_bytes t) as [r|e]; cbn [bind] in H; [|discriminate].
+    inversion H; subst. destruct (IH r eq_refl) as [-> Hf]. split; [reflexivity|].
+    constructor; [lia|exact Hf].
+Qed.
+
+Lemma firstn_len_app {A} (v r : list A) : firstn (length v) (v ++ r) = v.
+Proof. induction v as [|a t IH]; cbn; [destruct r; reflexivity | f_equal; exact IH]. Qed.
+
+Lemma skipn_len_app {A} (v r : list A) : skipn (length v) (v ++ r) = r.
+Proof. induction v as [|a t IH]; cbn; [reflexivity | exact IH]. Qed.
+
+Lemma info_add_fresh info k v :
+  ~ In k (map fst info) -> info_add info k v = info ++ [(k, VOne v)].
+Proof.
+  induction info as [|[k' x] t IH]; intros H; [reflexivity|]. cbn [info_add map fst In app] in *.
+  destruct (k' =? k) eqn:E; [exfalso; apply H; left; lia|]. f_equal. apply IH. tauto.
+Qed.
+
+Definition add_all (info : list (Z * info_value)) (objs : list object) : list (Z * info_value) :=
+  fold_left (fun i o => info_add i (fst o) (snd o)) objs info.
+
+Lemma add_all_fresh objs : forall info,
+  NoDup (map fst info ++ map fst objs) ->
+  add_all info objs = info ++ map (fun o => (fst o, VOne (snd o))) objs.
+Proof.
+  induction objs as [|[k v] t IH]; intros info H; cbn [add_all fold_left map fst snd].
+  - rewrite app_nil_r. reflexivity.
+  - cbn [map fst] in H. pose proof (NoDup_remove_2 _ _ _ H) as Hk.
+    rewrite info_add_fresh by (intro Hin; apply Hk; apply in_or_app; left; exact Hin).
+    change (fold_left (fun i o => info_add i (fst o) (snd o)) t (info ++ [(k, VOne v)]))
+      with (add_all (info ++ [(k, VOne v)]) t).
+    rewrite IH.
+    + rewrite <- app_assoc. reflexivity.
+    + rewrite map_app. cbn [map fst]. rewrite <- app_assoc. exact H.
+Qed.
+
+Lemma decode_ser objs : forall body info fuel,
+  ser_objs objs = Ok body -> (length body < fuel)%nat ->
+  decode_objs fuel body info = DecOk (add_all info objs).
+Proof.
+  induction objs as [|[k v] t IH]; intros body info fuel H Hf; cbn [ser_objs] in H.
+  - inversion H; subst. destruct fuel; reflexivity.
+  - destruct (pack_bytes [k; blen v]) as [h|e] eqn:Eh; cbn [bind] in H; [|discriminate].
+    destruct (ser_objs t) as [r|e] eqn:Er; cbn [bind] in H; [|discriminate].
+    inversion H; subst. apply pack_bytes_inv in Eh as [-> Hr].
+    inversion Hr as [|? ? Hk Hr']; subst. inversion Hr' as [|? ? Hl _]; subst.
+    cbn [map app] in *. destruct fuel as [|f]; [lia|]. cbn [decode_objs].
+    replace (N.to_nat (Z.to_N (blen v))) with (length v) by (unfold blen; lia).
+    rewrite firstn_len_app, skipn_len_app, Z2N.id by lia.
+    rewrite (IH r _ f eq_refl).
+    + reflexivity.
+    + cbn [length] in Hf. rewrite app_length in Hf. lia.
+Qed.
+
+(* decode (encode page) = page, for pages whose object ids are distinct *)
+Lemma decode_encode p b :
+  NoDup (map fst (pg_objs p)) -> encode_page code p = Ok b ->
+  decode_reply code (Z.to_N (c_fc code) :: b) = DOk (RResp (response_of_page p)).
+Proof.
+  intros Hnd H. unfold encode_page in H.
+  destruct (pack_bytes [c_sub code; pg_code p; c_conformity code]) as [h1|e] eqn:E1; cbn [bind] in H; [|discriminate].
+  destruct (ser_objs (pg_objs p)) as [body|e] eqn:E2; cbn [bind] in H; [|discriminate].
+  destruct (pack_bytes [pg_more p; pg_next p; Z.of_nat (length (pg_objs p))]) as [h2|e] eqn:E3; cbn [bind] in H; [|discriminate].
+  inversion H; subst. apply pack_bytes_inv in E1 as [-> R1]. apply pack_bytes_inv in E3 as [-> R3].
+  inversion R1 as [|? ? _ R1']; subst. inversion R1' as [|? ? Hc _]; subst.
+  inversion R3 as [|? ? Hm R3']; subst. inversion R3' as [|? ? Hn R3'']; subst. inversion R3'' as [|? ? Hcnt _]; subst.
+  cbn [map app]. unfold decode_reply.
+  replace (128 <? Z.of_N (Z.to_N (c_fc code))) with false by reflexivity.
+  replace (negb (Z.of_N (Z.to_N (c_fc code)) =? c_fc code)) with false by reflexivity.
+  rewrite (decode_ser _ _ [] _ E2) by lia.
+  rewrite add_all_fresh by (cbn [map app]; exact Hnd). cbn [app].
+  unfold response_of_page.
+  replace (Z.of_N (Z.to_N (c_sub code))) with (c_sub code) by reflexivity.
+  replace (Z.of_N (Z.to_N (c_conformity code))) with (c_conformity code) by reflexivity.
+  rewrite !Z2N.id by lia. reflexivity.
+Qed.
+
+(* pages produced by the server for stream access have distinct, ascending object ids *)
+Lemma page_objs_prefix objs space : exists rest, objs = fst (page_objs code space objs) ++ rest.
+Proof.
+  destruct (page_objs code space objs) as [acc oos] eqn:E. pose proof (page_objs_split _ _ _ _ E) as H.
+  cbn [fst]. destruct oos as [k|]; [destruct H as [v [rest ->]]; eauto | subst; exists []; rewrite app_nil_r; reflexivity].
+Qed.
+
+Lemma nodup_app_l {A} (l1 l2 : list A) : NoDup (l1 ++ l2) -> NoDup l1.
+Proof.
+  induction l1 as [|a t IH]; intros H; [constructor|]. cbn [app] in H. inversion H; subst.
+  constructor; [|auto]. intro Hin. apply H2. apply in_or_app. left. exact Hin.
+Qed.
+
+Lemma stream_page_nodup idn c s rc :
+  NoDup (map fst (pg_objs (page_of code rc (expected idn c s)))).
+Proof.
+  rewrite page_of_objs. destruct (page_objs_prefix (expected idn c s) (space0 code)) as [rest Hr].
+  pose proof (sorted_nodup _ (expected_sorted idn c s)) as Hn. rewrite Hr, map_app in Hn.
+  eapply nodup_app_l. exact Hn.
+Qed.
+
+(* ================================================================== the chain on the wire *)
+
+Lemma pack_bytes_ok vs : Forall (fun v => 0 <= v < 256) vs -> pack_bytes vs = Ok (map Z.to_N vs).
+Proof.
+  induction 1 as [|v t Hv Ht IH]; [reflexivity|]. cbn [pack_bytes map].
+  replace ((0 <=? v) && (v <? 256)) with true by lia. rewrite IH. reflexivity.
+Qed.
+
+Lemma ser_objs_ok objs :
+  (forall k v, In (k, v) objs -> 0 <= k <= 255 /\ blen v <= 255) -> exists b, ser_objs objs = Ok b.
+Proof.
+  induction objs as [|[k v] t IH]; intros H; [exists []; reflexivity|]. cbn [ser_objs].
+  destruct (H k v (or_introl eq_refl)) as [Hk Hv].
+  rewrite pack_bytes_ok by (repeat constructor; unfold blen in *; lia). cbn [bind].
+  destruct IH as [r Hr]; [intros; apply H; right; assumption|]. rewrite Hr. cbn [bind]. eauto.
+Qed.
+
+Lemma category_length c : (length (category c) <= 135)%nat.
+Proof.
+  unfold category. destruct (c =? 1); [vm_compute; lia|]. destruct (c =? 2); [vm_compute; lia|].
+  destruct (c =? 3); vm_compute; lia.
+Qed.
+
+Lemma expected_length idn c s : (length (expected idn c s) <= 135)%nat.
+Proof.
+  unfold expected, objects_of. eapply Nat.le_trans; [apply filter_len_le|]. rewrite map_length.
+  eapply Nat.le_trans; [apply filter_len_le|]. apply category_length.
+Qed.
+
+(* the server's reply to a stream request, as the client decodes it *)
+Lemma transact_stream idn c oid s :
+  fits idn -> stream_code c -> 0 <= oid <= 255 ->
+  factory_get code idn c oid = Ok (expected idn c s) ->
+  transact code idn c oid = DOk (RResp (response_of_page (page_of code c (expected idn c s)))).
+Proof.
+  intros Hfit Hc Hb Hget. unfold transact, server_reply.
+  rewrite execute_ok by (unfold stream_code in Hc; lia). rewrite Hget. cbn [bind].
+  set (p := page_of code c (expected idn c s)).
+  assert (Hsub : exists rest, expected idn c s = pg_objs p ++ rest).
+  { unfold p. rewrite page_of_objs. apply page_objs_prefix. }
+  destruct Hsub as [rest Hsub].
+  assert (Hmem : forall k v, In (k, v) (pg_objs p) -> 0 <= k <= 255 /\ blen v <= 255).
+  { intros k v Hin. assert (Hin' : In (k, v) (expected idn c s)) by (rewrite Hsub; apply in_or_app; left; exact Hin).
+    apply expected_from_member in Hin' as [_ [Hk [-> _]]]. split; [exact Hk|]. specialize (Hfit k). lia. }
+  destruct (ser_objs_ok _ Hmem) as [body Hbody].
+  assert (Hcnt : (length (pg_objs p) <= 135)%nat).
+  { pose proof (expected_length idn c s) as Hl. rewrite Hsub, app_length in Hl. lia. }
+  assert (Hmn : (pg_more p = 0 \/ pg_more p = 255) /\ 0 <= pg_next p <= 255).
+  { unfold p, page_of. destruct (page_objs code (space0 code) (expected idn c s)) as [acc [k|]] eqn:E; cbn [pg_more pg_next].
+    - split; [right; reflexivity|]. apply page_objs_split in E as [v [r E]].
+      assert (Hin : In (k, v) (expected idn c s)) by (rewrite E; apply in_or_app; right; left; reflexivity).
+      apply expected_from_member in Hin. lia.
+    - split; [left; reflexivity | lia]. }
+  assert (Henc : exists b, encode_page code p = Ok b).
+  { unfold encode_page. rewrite pack_bytes_ok.
+    2:{ assert (Hpc : pg_code p = c)
+          by (unfold p, page_of; destruct (page_objs code (space0 code) (expected idn c s)); reflexivity).
+        constructor; [change (0 <= 14 < 256); lia|].
+        constructor; [rewrite Hpc; unfold stream_code in Hc; lia|].
+        constructor; [change (0 <= 131 < 256); lia|constructor]. }
+    cbn [bind]. rewrite Hbody. cbn [bind]. rewrite pack_bytes_ok by (repeat constructor; lia). cbn [bind]. eauto. }
+  destruct Henc as [b Hb']. rewrite Hb'. cbn [bind].
+  apply decode_encode; [|exact Hb']. apply stream_page_nodup.
+Qed.
+
+Definition chain_end_of (e : pchain_end) : chain_end :=
+  match e with PDone => ChainDone | PExc x => ChainExc x | PRaises x => ChainRaises x | POutOfFuel => ChainOutOfFuel end.
+
+(* through request encoding, ServerDecoder, execute, encode and ClientDecoder the client sees
+   exactly the structured pages *)
+Lemma chain_is_pchain idn c : fits idn -> stream_code c ->
+  forall fuel oid s, 0 <= oid <= 255 ->
+    factory_get code idn c oid = Ok (expected idn c s) ->
+    chain code idn c oid fuel =
+    (map response_of_page (fst (pchain code idn c oid fuel)), chain_end_of (snd (pchain code idn c oid fuel))).
+Proof.
+  intros Hfit Hc. induction fuel as [|f IH]; intros oid s Hb Hget; [reflexivity|].
+  rewrite pchain_S. cbn [chain]. rewrite (transact_stream idn c oid s Hfit Hc Hb Hget).
+  rewrite execute_ok by (unfold stream_code in Hc; lia). rewrite Hget. cbn [bind]. cbv zeta.
+  set (p := page_of code c (expected idn c s)). cbn [rs_more rs_next response_of_page].
+  destruct (pg_more p =? 255) eqn:Em; [|reflexivity].
+  assert (Hnext : exists v acc rest, expected idn c s = acc ++ (pg_next p, v) :: rest).
+  { unfold p, page_of in *. destruct (page_objs code (space0 code) (expected idn c s)) as [acc [k|]] eqn:E; cbn [pg_more pg_next] in *.
+    - apply page_objs_split in E as [v [r E]]. eauto.
+    - vm_compute in Em. discriminate. }
+  destruct Hnext as [v [acc [rest Hsp]]].
+  assert (Hmem : In (pg_next p, v) (expected idn c s)) by (rewrite Hsp; apply in_or_app; right; left; reflexivity).
+  apply expected_from_member in Hmem as [_ [Hk [_ Hne]]].
+  assert (Hget' : factory_get code idn c (pg_next p) = Ok (expected idn c (pg_next p))).
+  { rewrite stream_get by (auto; lia). unfold stream_start. rewrite Hne, orb_true_r. reflexivity. }
+  rewrite (IH (pg_next p) (pg_next p) ltac:(lia) Hget').
+  destruct (pchain code idn c (pg_next p) f) as [ps e]. reflexivity.
+Qed.
+
+Lemma complete_wire idn c oid fuel :
+  fits idn -> stream_code c -> start_ok idn c oid = true ->
+  (length (expected idn c oid) < fuel)%nat ->
+  exists rs, chain code idn c oid fuel = (rs, ChainDone)
+             /\ flat_map (fun r => info_objects (rs_info r)) rs = expected idn c oid.
+Proof.
+  intros Hfit Hc Hs Hf. destruct (start_ok_get _ _ _ Hc Hs) as [Hb Hget].
+  destruct (complete_pages idn c oid fuel Hfit Hc Hs Hf) as [ps [Hp [Hcat _]]].
+  rewrite (chain_is_pchain idn c Hfit Hc fuel oid oid Hb Hget), Hp. cbn [fst snd chain_end_of].
+  eexists. split; [reflexivity|]. rewrite <- Hcat. clear.
+  induction ps as [|p t IH]; [reflexivity|]. cbn [map flat_map concat]. rewrite IH. f_equal.
+  unfold response_of_page; cbn [rs_info]. induction (pg_objs p) as [|[k v] l IHl]; [reflexivity|].
+  cbn [map info_objects flat_map fst snd app]. f_equal. exact IHl.
+Qed.
